@@ -243,8 +243,16 @@ def r3_order_uniqueness(chk: Check):
     chk.require(ok, chk.fkey(po, "pre-tasks keyed by identity"), "gathered pre-tasks must be keyed by identity", chk.loc(po.module, po.node))
 
 
+def r4_walk_reaches_every_node(chk: Check):
+    from . import c14
+
+    c14.r2_seal_reaches_hash_inputs(chk)
+
+
 RULES = [
     ("R1", "memoised walk: visited lookup before stub, stub recorded before recursion, final value recorded; the object store is keyed by id(config) everywhere and consulted before constructing", r1_memoised_walk),
     ("R2", "post-initialisation: only the two builders initiate __post_init__, once per object, after all attributes were set from the walk results", r2_post_init),
     ("R3", "lightweight tasks: every pre-task (de-duplicated) then every init task of the main record, all before the task body", r3_order_uniqueness),
+    ("R4", "the graph walk that builds the runtime objects descends into every argument value, list element, dict value, pre-task, init task and (when asked) producing task, "
+           "under no other condition than their presence (= C14.R2)", r4_walk_reaches_every_node),
 ]
